@@ -37,6 +37,7 @@ type vLkScenario struct {
 	Key       string
 	MaxDelay  int // ms
 	AllAnswer bool
+	KeyPeer   int // > 0: the key is the id of simulated peer (KeyPeer-1) mod N
 	Diversity int // > 0: routing-table IP-diversity filter with this per-group table limit; peers clustered in /16 groups
 	Groups    int // number of /16 groups the peers are spread over (Diversity > 0)
 }
@@ -121,6 +122,11 @@ func vGenLkScenario(c *vh.Case, converge bool) vLkScenario {
 	if r.Intn(5) == 0 {
 		sc.CancelAt = time.Duration(1+r.Intn(3*sc.MaxDelay+20)) * time.Millisecond
 	}
+	if r.Intn(5) == 0 {
+		// a FindPeer-style lookup: the key is the id of one of the simulated peers (which answers, fails or lies like
+		// any other peer)
+		sc.KeyPeer = 1 + r.Intn(1<<20)
+	}
 	return sc
 }
 
@@ -175,6 +181,11 @@ func vRunLookup(t *testing.T, c *vh.Case, sc vLkScenario) *vLkResult {
 	}
 	res.n = n
 	defer n.Close()
+	if sc.KeyPeer > 0 && len(n.IDs) > 0 {
+		sc.Key = string(n.IDs[(sc.KeyPeer-1)%len(n.IDs)])
+		res.sc = sc
+		c.Set("key_is_peer", n.Name(peer.ID(sc.Key)))
+	}
 	r := c.R
 	strangers := 0
 	for i, id := range n.IDs {
@@ -658,7 +669,7 @@ func vLkDescribe(c *vh.Case, res *vLkResult, d *vLkDerived) {
 
 func TestVerif_C01_lookup(t *testing.T) {
 	vh.Run(t, vh.Spec{Prop: "C01", Unit: "lookup", Quick: 3000, Thorough: 60000, CostMs: 25,
-		Rule: "PRNG networks (N 1-500, thorough up to 2000; K in {1,2,3,5,8,20}, alpha in {1,2,3,10}, beta in {1,2,3,K}; knowledge full/kbucket/sparse; 0-60% peers failing by dial/request/silence; liars adding self, duplicates, strangers, 200-entry lists; optional pure query filter; 20% cancelled at a PRNG instant), one GetClosestPeers each in virtual time; oracle over lookup events + simulated wire log; non-trivial = uncancelled, >= 2 hops and (>= 1 failure or more than K learned); distinct by (shape, behaviour mix, response arrival order)",
+		Rule: "PRNG networks (N 1-500, thorough up to 2000; K in {1,2,3,5,8,20}, alpha in {1,2,3,10}, beta in {1,2,3,K}; knowledge full/kbucket/sparse; 0-60% peers failing by dial/request/silence; the key is a fresh string or, in a fifth of the cases, the id of one of the simulated peers (FindPeer-style lookup); liars adding self, duplicates, strangers, 200-entry lists; optional pure query filter; 20% cancelled at a PRNG instant), one GetClosestPeers each in virtual time; oracle over lookup events + simulated wire log; non-trivial = uncancelled, >= 2 hops and (>= 1 failure or more than K learned); distinct by (shape, behaviour mix, response arrival order)",
 		Clauses: []string{"at-most-k", "ascending", "seeds-are-k-nearest-of-table", "result-is-k-nearest-of-learned", "result-not-failed", "heard-is-filtered-answer", "unreachable-iff-failed", "waiting-then-contact", "asked-at-most-once", "cancelled-result-learned", "cancelled-result-not-failed", "cancelled-result-no-omission", "waiting-source-named-peer"}},
 		func(c *vh.Case) {
 			sc := vGenLkScenario(c, false)
